@@ -76,7 +76,7 @@ impl Case {
         (self.bw << self.base.subsampling_x, self.bh << self.base.subsampling_y)
     }
     /// the pool of configs: the base config and variants that differ from it in exactly one field
-    fn cfg_pool(&self) -> [YuvConfig; 4] {
+    fn cfg_pool(&self) -> [YuvConfig; 6] {
         let c = self.base;
         let mut m = c;
         m.matrix_coefficients = if c.matrix_coefficients == MC::BT709 { MC::ST2085 } else { MC::BT709 };
@@ -84,14 +84,21 @@ impl Case {
         p.color_primaries = if c.color_primaries == CP::BT709 { CP::BT2020 } else { CP::BT709 };
         let mut r = c;
         r.full_range = !c.full_range;
-        [c, m, p, r]
+        // two configs whose conversions fail (reserved matrix; primaries-derived matrix with unsupported primaries), with
+        // another range: a failing call must leave nothing behind for the next one
+        let mut bad = r;
+        bad.matrix_coefficients = MC::Reserved;
+        let mut bad2 = c;
+        bad2.matrix_coefficients = MC::ChromaticityDerivedNonConstantLuminance;
+        bad2.color_primaries = CP::Reserved0;
+        [c, m, p, r, bad, bad2]
     }
 }
 
 pub fn strategy() -> BoxedStrategy<Case> {
     let op = prop_oneof![
         2 => (0u8..SLOTS as u8, 0u8..4, any::<u64>()).prop_map(|(slot, kind, seed)| Op::New { slot, kind, seed }),
-        6 => (0u8..SLOTS as u8, any::<u8>(), 0u8..4, 0u8..SLOTS as u8).prop_map(|(src, edge, cfg, dst)| Op::Convert { src, edge, cfg, dst }),
+        6 => (0u8..SLOTS as u8, any::<u8>(), prop_oneof![4 => 0u8..4, 1 => 4u8..6], 0u8..SLOTS as u8).prop_map(|(src, edge, cfg, dst)| Op::Convert { src, edge, cfg, dst }),
         2 => (0u8..SLOTS as u8, any::<u64>()).prop_map(|(slot, seed)| Op::Paint { slot, seed }),
     ];
     (working_cfg(), 1usize..=3, 1usize..=2, prop::collection::vec(op, 3..=12))
